@@ -249,6 +249,49 @@ class Check(PropertyCheck):
                                        "observed": out, "required": why}, found_input=True, signature="gateway:error-schedule")
                         break
         rep.cov["error_frame_schedules"] = nsched
+        # both directions restart at zero after the handshake, also when a DATA frame of the host was still unacknowledged at
+        # the reset and its acknowledgement arrives together with the RSTACK (one read / two consecutive callbacks): the
+        # first DATA frame after the handshake carries frame number 0, from every prior value
+        import ashref as _ar
+        import c05 as _c05
+        nrestart = 0
+        for k in range(8):
+            for together in (True, False):
+                d = _c05.Driver()
+                bad = None
+                try:
+                    for i in range(k):                                   # prior traffic: k acknowledged sends
+                        d.submit(i, bytes([0x30 + i]))
+                        d.proto.data_received(_ar.wire(("ACK", 0, 0, (i + 1) % 8)))
+                        d.loop.settle()
+                    d.submit(100, b"inflight")                           # frame number k, not yet acknowledged
+                    d.proto.send_reset()
+                    ack = _ar.wire(("ACK", 0, 0, (k + 1) % 8))
+                    rstack = _ar.wire(("RSTACK", 2, 0x0B))
+                    if together:
+                        d.proto.data_received(ack + rstack)
+                    else:
+                        d.loop.call_soon(d.proto.data_received, ack)
+                        d.loop.call_soon(d.proto.data_received, rstack)
+                    d.loop.settle()
+                    del d.rec.log[:]
+                    d.submit(200, b"after")
+                    nrestart += 1
+                    sent = [e for e in d.rec.log if e[0] == "w" and e[1] == "data"]
+                    if not sent or sent[0][2] != 0:
+                        bad = (f"prior traffic of {k} frames, frame {k} unacknowledged at the reset, its ACK and the RSTACK arriving "
+                               f"{'in one read' if together else 'as two consecutive callbacks'}: the first DATA frame after the "
+                               f"handshake carries frame number {sent[0][2] if sent else None}, not 0")
+                except BaseException as e:  # noqa
+                    bad = f"the scenario crashed: {e!r}"
+                finally:
+                    d.close()
+                if bad:
+                    rep.violation({"input": {"prior_frames": k, "ack_and_rstack_in_one_read": together},
+                                   "observed": bad, "required": "after a completed handshake both directions restart at frame number zero"},
+                                  found_input=True, signature="gateway:restart-after-inflight")
+                    break
+        rep.cov["restart_with_frame_in_flight"] = nrestart
         nloss = 0
         for waiter in ("reset", "startup", "both"):
             for loss in ("error-frame", "rstack-other", "close", "lost", "eof"):
